@@ -209,7 +209,7 @@ Proof.
   { unfold s. rewrite !app_length. reflexivity. }
   exists (rewrap 0 e1). split; [|split].
   - unfold parse_top. fold s.
-    rewrite (run_mono s false cx _ (parse_fuel s) _ _ H2 ltac:(discriminate)) by (unfold parse_fuel; lia).
+    rewrite (run_mono s false cx _ (parse_fuel s cx) _ _ H2 ltac:(discriminate)) by (pose proof (parse_fuel_ge s cx); lia).
     cbn [parse_content]. f_equal; unfold q; lia.
   - cbn [rewrap mkerr pe_pos]. rewrite P1. cbn [fail_err mkerr pe_pos]. f_equal; unfold q; lia.
   - cbn [rewrap mkerr pe_what]. rewrite W1. reflexivity.
